@@ -1,0 +1,43 @@
+//go:build linux
+
+package signal
+
+import (
+	"unsafe"
+
+	c "github.com/goplus/llgo/runtime/internal/clite"
+)
+
+const (
+	LLGoPackage = "link"
+)
+
+//llgo:type C
+type SignalHandler func(c.Int)
+
+// saNodefer keeps the signal deliverable while its handler runs. The handlers
+// installed here leave by a non-local jump (a panic unwinds with siglongjmp to
+// a frame saved without the signal mask), so a signal blocked on entry would
+// stay blocked for the rest of the thread's life.
+const saNodefer = 0x40000000
+
+// struct sigaction of the C library on Linux (glibc and musl):
+// the handler, a 1024-bit sigset_t, the flags and the restorer.
+//
+//llgo:type C
+type sigactiont struct {
+	handler  SignalHandler
+	mask     [128]byte
+	flags    c.Int
+	restorer unsafe.Pointer
+}
+
+//go:linkname sigaction C.sigaction
+func sigaction(sig c.Int, act, old *sigactiont) c.Int
+
+func Signal(sig c.Int, hanlder SignalHandler) c.Int {
+	var act sigactiont
+	act.handler = hanlder
+	act.flags = saNodefer
+	return sigaction(sig, &act, nil)
+}
